@@ -29,7 +29,12 @@ RULE = ("[phase 2: + lazy results requested under one configuration and consumed
         "texts handed out by a result (fixed_len / get_ch_text / + / slices) extended in place by the caller before the "
         "result is consumed again, the palette given as the object synced with the global configuration x no_color; round 7: "
         "console help about objects / bound methods / classes whose hook hands out stored, possibly shared notes, asked "
-        "several times] histories of 3-16 operations over 1-5 configurations (created, dropped with gc.collect(), made global), 1-2 enum "
+        "several times; round 8: customised compound palettes — four palette classes derived from PPTable.TablePalette / "
+        "PPRecordFmt.PPRecordPalette whose SUB_PALETTES_MAP substitutes the palette classes of the cells (enum / number+keyword / "
+        "title palettes, with built-in ids only or with syntax ids of their own that get registered at first use), given "
+        "as palette=<class> or palette=<object of it> for eager renderings and as palette=<class> for lazy results, "
+        "x coloured / no_color / line-wise, mixed with the default palettes of the same objects under the same "
+        "configurations (stream `customised-palettes` and 15% of the table / record renderings of the other streams)] histories of 3-16 operations over 1-5 configurations (created, dropped with gc.collect(), made global), 1-2 enum "
         "field types and 2-4 printable objects of all five kinds (pretty-printed data, tables incl. enum columns / limits / "
         "break lines / multi-line titles / truncation, record formats, git history reports over stub data, console help), "
         "each rendered coloured, without colours, line by line (before or after the whole text); streams: random, `reuse` "
@@ -52,14 +57,19 @@ ASSUMPTIONS = ["an operation of the model that raises leaves the state as it was
                "pattern in ak/color.py; the driver executes it on every coloured whole text (mode c)",
                "content has no ESC character (hypothesis of C10.strip_eq / nocolor_no_esc; generators never emit one)",
                "C10.history_free for coloured renderings: every description of the configuration was resolved at creation "
-               "(`closed`) and no accessor used waits for another palette class (`tagStable`: false only for number / "
-               "constant cells in table titles, which use TitlePalette with RecordPalette's ids; counted in the evidence "
-               "as render:with-accessor-waiting-for-another-class); the dangling case is the known finding late_resolution, kept as a "
+               "(`closed`) and no accessor used waits for another palette class (`tagStableAt`, evaluated on the class that "
+               "serves the chunk, i.e. after SUB_PALETTES_MAP of the object's palette class: false for number / "
+               "constant cells in table titles, which use TitlePalette with RecordPalette's ids, and for the inherited "
+               "number / keyword accessors of a substituted palette class that declares SYNTAX_DEFAULTS of its own; counted "
+               "in the evidence as render:with-accessor-waiting-for-another-class); the dangling case is the known finding late_resolution, kept as a "
                "checked counter-example in Props/C10.lean",
+               "SUB_PALETTES_MAP: keys are palette classes (no (class, modifier) keys — get_sub_palette is only ever called without a "
+               "modifier in the package) and the accessors of the requested class are the first accessors of the class used "
+               "instead (checked by the translator: chunks are tagged by requested class and accessor number)",
                "circular descriptions that only appear when a palette class registers its defaults (e.g. {'WARN': "
                "'TABLE.WARN'}: every table rendering raises AssertionError) are outside the model (reply OUT-OF-FUEL) and "
                "are not generated"]
-THEOREMS = ["C10.cfg_ok", "C10.key_by_object", "C10.driver_alloc_valid", "C10.reachable_inv", "C10.layout_indep", "C10.history_free", "C10.history_free_steady", "C10.same_description_same_output", "C10.nocolor_no_esc", "C10.strip_pattern_ok", "C10.strip_eq", "C10.lazy_lines_history_free", "C10.lazy_whole_history_free", "C10.lines_eq_whole", "C10.same_colors_same_output", "C10.registration_keeps_colors", "C10.whole_memo_stable", "C10.set_global_resyncs", "C10.gp_synced"]
+THEOREMS = ["C10.cfg_ok", "C10.key_by_object", "C10.driver_alloc_valid", "C10.reachable_inv", "C10.layout_indep", "C10.history_free", "C10.history_free_steady", "C10.same_description_same_output", "C10.sub_palette_follows_parent", "C10.no_substitution_no_change", "C10.nocolor_no_esc", "C10.strip_pattern_ok", "C10.strip_eq", "C10.lazy_lines_history_free", "C10.lazy_whole_history_free", "C10.lines_eq_whole", "C10.same_colors_same_output", "C10.registration_keeps_colors", "C10.whole_memo_stable", "C10.set_global_resyncs", "C10.gp_synced"]
 
 ESC = "\x1b"
 
@@ -84,7 +94,7 @@ def _classes():
         ("GlobalPalette", GlobalPalette),
         ("AppPalette(APPA)", _user_classes()[0]),
         ("AppPalette(APPB)", _user_classes()[1]),
-    ]
+    ] + [(c.__name__, c) for c in _custom_classes()]
 
 
 _USER = None
@@ -106,6 +116,69 @@ def _user_classes():
             return AppPalette
         _USER = [mk_app_palette("APPA", "RED:bold", "NAME:underline"), mk_app_palette("APPB", "CYAN", "MAGENTA/g4")]
     return _USER
+
+
+_CUSTOM = None
+
+
+def _custom_classes():
+    """customised compound palettes (the documented way to change the colours of cells: a palette class derived from
+    the component's compound palette whose SUB_PALETTES_MAP substitutes the palette classes of the parts) and the
+    palette classes they substitute.  [CellEnumA, CellRecA, CellEnumB, CellTitleB, TableA, TableB, RecA, RecB];
+    the last four are given as `palette=` (pk 3..6)"""
+    global _CUSTOM
+    if _CUSTOM is None:
+        from ak.ppobj import PPTable, PPRecordFmt, PPEnumFieldType, FieldType, _DefaultTitleFieldType
+        from ak.color import ConfColor
+
+        class CellEnumA(PPEnumFieldType.EnumPalette):          # built-in ids only
+            value = ConfColor("NUMBER")
+            name_good = ConfColor("OK")
+            name_warn = ConfColor("WARN")
+
+        class CellRecA(FieldType.RecordPalette):
+            number = ConfColor("KEYWORD")
+
+        class CellEnumB(PPEnumFieldType.EnumPalette):          # registers ids of its own when first used
+            SYNTAX_DEFAULTS = {"CELL.GOOD": "CYAN:bold", "CELL.BAD": "ERROR:underline"}
+            name_good = ConfColor("CELL.GOOD")
+            error = ConfColor("CELL.BAD")
+            keyword = ConfColor("NAME")
+
+        class CellTitleB(_DefaultTitleFieldType.TitlePalette):
+            col_title = ConfColor("NAME")
+            title = ConfColor("KEYWORD")
+
+        class TableA(PPTable.TablePalette):
+            SUB_PALETTES_MAP = {PPEnumFieldType.EnumPalette: CellEnumA, FieldType.RecordPalette: CellRecA}
+
+        class TableB(PPTable.TablePalette):
+            SUB_PALETTES_MAP = {PPEnumFieldType.EnumPalette: CellEnumB, _DefaultTitleFieldType.TitlePalette: CellTitleB}
+
+        class RecA(PPRecordFmt.PPRecordPalette):
+            SUB_PALETTES_MAP = {PPEnumFieldType.EnumPalette: CellEnumA}
+
+        class RecB(PPRecordFmt.PPRecordPalette):
+            SUB_PALETTES_MAP = {PPEnumFieldType.EnumPalette: CellEnumB, FieldType.RecordPalette: CellRecA}
+        _CUSTOM = [CellEnumA, CellRecA, CellEnumB, CellTitleB, TableA, TableB, RecA, RecB]
+    return _CUSTOM
+
+
+# palette classes that a history may give as `palette=`: protocol digit -> (kind of object, class)
+def _given_classes():
+    u, c = _user_classes(), _custom_classes()
+    return {"1": ("pp", u[0]), "2": ("pp", u[1]), "3": ("table", c[4]), "4": ("table", c[5]),
+            "5": ("rec", c[6]), "6": ("rec", c[7])}
+
+
+_PK_DIGITS = "123456"
+_PK_FOR_KIND = {"pp": "12", "table": "34", "rec": "56"}
+
+
+def _pk_class(pk):
+    """the digit of the palette class in a palette token (c / o / s / n / <digit> / o<digit>), or "n" """
+    d = pk[-1:]
+    return d if d in _PK_DIGITS else "n"
 
 
 _CID = None
@@ -212,13 +285,23 @@ def translate(repo):
             flat = ColorsConfig._flatten_dict(c.SYNTAX_DEFAULTS)
             dfl = "(some [%s])" % ", ".join("(%s, %s)" % (_lean_str(k), _lean_descr(v)) for k, v in flat.items())
         sub = getattr(c, "SUB_PALETTES_MAP", None) or {}
-        if sub:
-            raise ValueError("%s.SUB_PALETTES_MAP is not empty: not modelled" % name)
+        if sub and not issubclass(c, CompoundPalette):
+            raise ValueError("%s has SUB_PALETTES_MAP and is not a CompoundPalette" % name)
+        for req, act in sub.items():
+            if isinstance(req, tuple):
+                raise ValueError("%s.SUB_PALETTES_MAP has a (class, modifier) key: not modelled" % name)
+            # chunks are tagged (requested class, accessor number): the accessors of the requested class must be
+            # the first accessors of the class used instead, in the same order
+            rk, ak_ = list(req._LOCAL_SYNTAX), list(act._LOCAL_SYNTAX)
+            if ak_[:len(rk)] != rk:
+                raise ValueError("%s.SUB_PALETTES_MAP: accessors of %s do not start with those of %s" % (name, act, req))
         loc = ", ".join(_lean_str(s) for s in c._LOCAL_SYNTAX.values())
-        rows.append("  -- %d %s: accessors %s\n  { compound := %s, parents := [%s], defaults := %s, localSyntax := [%s] }" % (
+        rows.append("  -- %d %s: accessors %s\n  { compound := %s, parents := [%s], defaults := %s, localSyntax := [%s], "
+                    "subMap := [%s] }" % (
             len(rows), name, " ".join(c._LOCAL_SYNTAX.keys()),
             "true" if issubclass(c, CompoundPalette) else "false",
-            ", ".join(str(_cid(p)) for p in parents), dfl, loc))
+            ", ".join(str(_cid(p)) for p in parents), dfl, loc,
+            ", ".join("(%d, %d)" % (_cid(r), _cid(a)) for r, a in sub.items())))
     lines.append(",\n".join(rows))
     lines.append("]")
     # the pattern of CHText.strip_colors, read the way C09's translator reads it (\\d = Unicode decimal digits)
@@ -411,8 +494,13 @@ class _Obj:
         return {"rec": "rec", "hcmd": "hcmd"}.get(self.kind, "obj")
 
     def top_class(self, pk="n"):
-        if pk in ("1", "2"):
-            return _user_classes()[int(pk) - 1]
+        """the class of the object's own palette; pk = palette token (or just the digit of a given class)"""
+        d = _pk_class(pk)
+        if d != "n":
+            kind, cls = _given_classes()[d]
+            if kind != self.kind:
+                raise ValueError("palette class %s is not for a %s" % (d, self.kind))
+            return cls
         from ak.ppobj import PrettyPrinter, PPTable, PPRecordFmt
         from ak.ghist import GHistReport
         from ak.hdoc import HCommand
@@ -421,13 +509,14 @@ class _Obj:
 
     def result(self, conf, no_color, palette=None, pk="n"):
         """the lazily evaluated result object (or its closest analogue); pk: how the palette is given —
-        n: not at all, c: palette=<the palette class>, o: palette=<an object of it made from the configuration>"""
+        n: not at all, c: palette=<the palette class>, o: palette=<an object of it made from the configuration>,
+        <digit>: palette=<that helper-made / customised palette class>, o<digit>: palette=<an object of that class>"""
         if palette is not None:
             kw = dict(palette=palette)
-        elif pk in ("c", "1", "2"):
+        elif pk == "c" or pk in _PK_DIGITS:
             kw = dict(palette=self.top_class(pk), no_color=no_color, colors_conf=conf)
-        elif pk == "o":
-            kw = dict(palette=self.top_class()(colors_conf=conf), no_color=no_color)
+        elif pk[0] == "o":
+            kw = dict(palette=self.top_class(pk)(colors_conf=conf), no_color=no_color)
         elif pk == "s":            # the palette object of this class that is synced with the global configuration
             kw = dict(palette=self.top_class()(synced=True), no_color=no_color)
         else:
@@ -851,13 +940,13 @@ def _replay(case, before=None, after=None):
                     objs[op[1]].set_fmt(op[2])
                 out.append("ok")
             elif op[0] == "res":                 # r = obj.ch_text(...): nothing is rendered yet
-                _, r, o, k, mode = op
+                _, r, o, k, mode = op[:5]
                 conf = None if k == "g" else confs[k]
                 cur = conf if conf is not None else color.get_global_colors_config()
                 res_conf[r] = cur
                 if before is not None:
                     before(("res", r), cur)
-                results[r] = get_obj(o).result(conf, mode == "n")
+                results[r] = get_obj(o).result(conf, mode == "n", pk=op[5] if len(op) > 5 else "n")
                 _capture(confs)
                 out.append("ok")
                 conf = cur = None
@@ -931,7 +1020,7 @@ def _finish(case):
     def shape(o, pk="n"):
         spec = case["objs"][o]
         need = {e: live_enums[e] for e in spec.get("types", {}).values()}
-        pk = pk if pk in ("1", "2") else "n"
+        pk = _pk_class(pk)
         key = (o, tuple(sorted(need)), fmts.get(o, ()), pk)
         if key not in shapes:
             shapes[key] = shape_of(case["objs"], o, need, vregs, fmts.get(o, ()), pk)
@@ -958,8 +1047,8 @@ def _finish(case):
             fmts[op[1]] = tuple(fmts.get(op[1], ())) + (op[2],)
             lines.append("setfmt %s %s" % (op[1], enc_str(op[2])))
         elif op[0] == "res":
-            _, r, o, k, mode = op
-            lines.append("res %s %s %s %s %s" % (r, o, k, mode, shape(o)))
+            _, r, o, k, mode = op[:5]
+            lines.append("res %s %s %s %s %s" % (r, o, k, mode, shape(o, op[5] if len(op) > 5 else "n")))
         elif op[0] == "str":
             lines.append("str %s %s" % (op[1], op[2] if len(op) > 2 else "s"))
         elif op[0] == "derive":
@@ -1033,7 +1122,8 @@ def _reference(case, i, descr, nc, mode):
     if obj.kind == "hcmd":
         color.set_global_colors_config(conf)
         conf = None
-    pk = op[4] if op[0] == "render" and len(op) > 4 and op[4] in ("1", "2") else "n"
+    # a given palette class is part of the request (an object of it made from the configuration = the class)
+    pk = _pk_class(op[4]) if op[0] == "render" and len(op) > 4 else _pk_class(op[5]) if op[0] == "res" and len(op) > 5 else "n"
     return _reply(obj.observe_raw(conf, mode, pk))
 
 
@@ -1117,7 +1207,7 @@ def oracle(case, replies):
                 # a lazy result consumed later / partly / interleaved gives what an immediate consumption gives
                 r = op[1] if op[0] == "str" else res_of_iter[op[1]]
                 ri = res_at[r]
-                _, _, o, k, rmode = case["ops"][ri]
+                _, _, o, k, rmode = case["ops"][ri][:5]
                 kind = case["objs"][o]["kind"]
                 what = "result %s of object %s (%s) under configuration %s" % (r, o, kind, k)
                 if not rep.startswith("ok"):
@@ -1597,6 +1687,9 @@ def _pk(spec, rng):
         return ["s"]                        # the palette object synced with the global configuration
     if spec["kind"] == "pp" and rng.random() < 0.5:
         return [rng.choice("12")]           # one of two equally named palette classes made by a helper
+    if spec["kind"] in ("table", "rec") and rng.random() < 0.5:
+        # a customised compound palette (SUB_PALETTES_MAP substitutes the palettes of the cells): class or object
+        return [rng.choice(["", "", "o"]) + rng.choice(_PK_FOR_KIND[spec["kind"]])]
     return [rng.choice("cco")]
 
 
@@ -1825,6 +1918,8 @@ def _gen_lazy(rng, concurrent):
         r = str(nres)
         nres += 1
         ops.append(["res", r, o, conf(), rng.choice("ccn")])
+        if objs[o]["kind"] == "table" and rng.random() < 0.3:
+            ops[-1].append(rng.choice(_PK_FOR_KIND["table"]))
         results.append(r)
         if rng.random() < 0.6:
             other()
@@ -1998,6 +2093,79 @@ def _gen_help_twice(rng):
     return _finish(case)
 
 
+def _gen_customised(rng):
+    """customised compound palettes: tables / records with enum, number, keyword and title cells printed with palette
+    classes whose SUB_PALETTES_MAP substitutes the palettes of the cells (given as class or as object), mixed with the
+    default palettes, coloured and without colours, under several configurations (one possibly discarded), eagerly
+    and through lazy results"""
+    enums = {"0": _rand_enum(rng)}
+    if rng.random() < 0.3:
+        enums["1"] = _rand_enum(rng)
+    enum_ids = sorted(enums)
+    objs = {}
+    for _ in range(40):
+        if len(objs) >= 3:
+            break
+        want = len(objs)
+        if want == 0:
+            spec = _rand_table(rng, enum_ids, enums)
+            if not spec.get("types") or not spec["records"]:
+                continue
+        elif want == 1:
+            spec = _rand_rec(rng, enum_ids, enums)
+        else:
+            spec = _rand_table(rng, enum_ids if rng.random() < 0.5 else [], enums)
+            if not spec["records"]:
+                continue
+            if "titles" not in spec and rng.random() < 0.6:
+                spec["titles"] = {spec["fields"][0]: rng.choice(["Title", ["a", 7], [None, "b"], "two\nlines"])}
+        if _shape_ok(spec, enums):
+            objs[str(want)] = spec
+    if not objs:
+        return _gen_history(rng, "quick", False, "random")
+    confs = {"1": _rand_conf(rng, False), "2": _rand_conf(rng, False)}
+    ops = [["enum", e] for e in enum_ids] + [["conf", "1"], ["conf", "2"]]
+    if rng.random() < 0.5:
+        ops.append(["setglobal", rng.choice("12")])
+    live = ["1", "2"]
+
+    def pk(spec):
+        r = rng.random()
+        if r < 0.2:
+            return []
+        if r < 0.3:
+            return [rng.choice("co")]
+        return [rng.choice(["", "", "o"]) + rng.choice(_PK_FOR_KIND[spec["kind"]])]
+
+    def render():
+        o = rng.choice(sorted(objs))
+        ops.append(["render", o, rng.choice(live + ["g"]), _modes(objs[o], rng)] + pk(objs[o]))
+    for _ in range(rng.randrange(2, 5)):
+        render()
+    r = rng.random()
+    if r < 0.3:
+        k = rng.choice(live)
+        ops.append(["drop", k])
+        live.remove(k)
+        confs["3"] = _rand_conf(rng, False)
+        ops.append(["conf", "3"])
+        live.append("3")
+    elif r < 0.5:
+        ops.append(["setglobal", rng.choice(live)])
+    elif r < 0.75 and objs["0"]["kind"] == "table":
+        # a lazy result with a customised palette: the cell palettes are asked for when the lines are generated
+        ops.append(["res", "0", "0", rng.choice(live + ["g"]), rng.choice("cn"), rng.choice(_PK_FOR_KIND["table"])])
+        render()
+        if rng.random() < 0.5:
+            ops.append(["iter", "0", "0"])
+            ops.append(["next", "0", rng.choice([1, 2, 99])])
+        ops.append(["str", "0", rng.choice("ssp")])
+    for _ in range(rng.randrange(1, 4)):
+        render()
+    case = {"ops": ops, "confs": confs, "enums": enums, "objs": objs, "meta": {"kind": "customised-palettes"}}
+    return _finish(case)
+
+
 def _gen_same_named(rng):
     """two palette classes with the same module and qualified name and different SYNTAX_DEFAULTS under one configuration"""
     objs = {"0": {"kind": "pp", "json": False, "value": {"d": [["k", [1, None, "s", 2.5]], ["n", 7]]}},
@@ -2030,6 +2198,8 @@ def gen_cases(rng, tier):
             yield _gen_formats(rng)
         elif j == 15:
             yield _gen_same_named(rng)
+        elif j in (1, 12):
+            yield _gen_customised(rng)
         elif j == 19:
             yield _gen_two_enums(rng)
         elif j == 9:
@@ -2075,10 +2245,14 @@ def _valid(case):
                 return False
             if len(op) > 4 and op[4] == "s" and (op[2] != "g" or case["objs"][op[1]]["kind"] not in ("pp", "ghist")):
                 return False
+            if len(op) > 4 and _pk_class(op[4]) != "n" and _given_classes()[_pk_class(op[4])][0] != case["objs"][op[1]]["kind"]:
+                return False
         elif op[0] == "res":
             if op[3] != "g" and op[3] not in confs:
                 return False
             if op[1] in results or not set(case["objs"][op[2]].get("types", {}).values()) <= enums:
+                return False
+            if len(op) > 5 and _given_classes()[_pk_class(op[5])][0] != case["objs"][op[2]]["kind"]:
                 return False
             results[op[1]] = op[2]
         elif op[0] in ("str", "derive"):
@@ -2167,7 +2341,9 @@ _STABLE = None
 
 
 def _unstable_tags(line):
-    """tags of a render line whose accessor waits for another palette class (hypothesis `tagStable` of C10.history_free)"""
+    """tags of a render line whose accessor waits for another palette class (hypothesis `tagStableAt` of
+    C10.history_free: the accessor of the class that serves the tag — the one SUB_PALETTES_MAP of the object's own
+    palette class substitutes for the class the tag names)"""
     global _STABLE
     from ak.color import ColorsConfig
     if _STABLE is None:
@@ -2180,9 +2356,13 @@ def _unstable_tags(line):
             for ai, x in enumerate(c._LOCAL_SYNTAX.values()):
                 _STABLE[(ci, ai)] = x in builtin or x in dfl[ci] or x not in alld
     bad = set()
-    for m in re.finditer(r"[;/ ](?:c|e\d+\.\d+\.)(\d+)\.(\d+)=", line):
-        if not _STABLE.get((int(m.group(1)), int(m.group(2))), True):
-            bad.add((int(m.group(1)), int(m.group(2))))
+    top = int(line.split()[5])
+    sub = {_cid(r): _cid(a) for r, a in (getattr(_classes()[top][1], "SUB_PALETTES_MAP", None) or {}).items()}
+    for m in re.finditer(r"[;/ ](c|e\d+\.\d+\.)(\d+)\.(\d+)=", line):
+        c = int(m.group(2))
+        c = c if (m.group(1) == "c" and c == top) else sub.get(c, c)
+        if not _STABLE.get((c, int(m.group(3))), True):
+            bad.add((c, int(m.group(3))))
     return bad
 
 
@@ -2195,9 +2375,17 @@ def tags(case, replies):
         if op[0] == "render":
             yield "render:%s:%s" % (case["objs"][op[1]]["kind"], op[3])
             if len(op) > 4:
-                yield "render:palette=" + {"c": "class", "o": "object", "s": "synced-object", "1": "helper-class", "2": "helper-class"}[op[4]]
+                d = _pk_class(op[4])
+                how = ("helper-class" if d in "12" else
+                       "customised-compound-" + ("object" if op[4][0] == "o" else "class") if d != "n" else
+                       {"c": "class", "o": "object", "s": "synced-object"}[op[4]])
+                yield "render:palette=" + how
+                if d not in "n12":
+                    yield "render:customised:%s:%s" % (_given_classes()[d][1].__name__, "no_color" if op[3] in "nmM" else "coloured")
         else:
             yield "op:" + op[0]
+            if op[0] == "res" and len(op) > 5:
+                yield "res:palette=customised-compound-class:" + ("no_color" if op[4] == "n" else "coloured")
     yield "ops:%d" % min(len(case["ops"]), 15)
     yield "confs:%d" % len(case["confs"])
     for r in replies:
@@ -2224,8 +2412,22 @@ LEVEL_TEXT = ("NOT proved: that the real layout (texts, widths, line breaks) doe
               "(the driver's allocator is one of the allocators the theorems quantify over). Phase 2: lazy results and line "
               "iterators are part of the histories; lazy_lines_history_free / lazy_whole_history_free prove that what an "
               "iterator or the first str() gives, whenever and however interleaved, is the pure painting of the object's "
-              "lines for the configuration the result was requested for (a held palette is never collected nor overwritten).")
-LEVEL_NOTE = ("Console help: the notes a user's `_get_hdoc_method_notes` returns (stored BoundMethodNotes, shared between "
+              "lines for the configuration the result was requested for (a held palette is never collected nor overwritten). "
+              "Round 8: SUB_PALETTES_MAP is in the class table (generated from the palette classes, the package's and four customised "
+              "ones) and in the model's get_sub_palette; all theorems above now hold for customised compound palettes too "
+              "(colours stated through resolveTag = the class that serves a chunk after substitution); "
+              "sub_palette_follows_parent: after any history a sub-palette — substituted or not — has the class the map "
+              "gives, the no_color flag and (coloured) the configuration of the compound palette that made it, and no colour "
+              "at all under no_color; no_substitution_no_change: for palette classes with an empty map the statements are the "
+              "former ones.")
+LEVEL_NOTE = ("Texts handed out by a result (fixed_len / get_ch_text / + / slices) and then extended in place by the caller "
+              "(round 6, `derive`): the model has no aliasing — a result hands out values — so whole_memo_stable only states "
+              "that the model returns the memoised value and leaves the state alone (it restates strRes for memo = some w); "
+              "that the real CHTextResult never hands out its memo itself rests on the tie alone (differential run + "
+              "fresh-state oracle, seed C10-m15), not on a theorem. Customised compound palettes: that the real "
+              "get_sub_palette is the only way cell palettes are obtained (so that shape + class table determine the colours) "
+              "rests on the tie; only substitutions by classes whose leading accessors are those of the requested class are "
+              "generated. Console help: the notes a user's `_get_hdoc_method_notes` returns (stored BoundMethodNotes, shared between "
               "methods) are values in the model — rendering reads them and cannot write them; that the real code does not "
               "mutate user-returned objects rests on the tie (histories asking about the same subject several times, "
               "oracle = fresh-state rendering); the theorem for the help kind is history_free. Synced palette objects of classes other than GlobalPalette: modelled (mkSynced, re-synced by setGlobal and by "
